@@ -58,6 +58,9 @@ def run(tier, seed):
         if not r.ok:
             chk.violation(f"MC_Mixer/{cfg}: {r.error}")
         chk.add_spec_run(cfg, r, "scaled: 14 (20) T per frame, 4 (7) samples per frame, steps 1..4 T, <= 2 (3) speaker writes per frame, 2 frames")
+    # unbounded arithmetic behind the pacing model (any F, any spf): cursor bounded, monotone, exact at the
+    # frame ends, and the first sample carrying a new level lies in the window EdgeOk allows
+    chk.cov["tlaps"] = tlaps("MixerProofs", PID, shared_with="Mixer", shared=("DuePos", "EdgeOk"))
     first = None
     frames = 0
     for trace, r, n, mm in res[len(cfgs):]:
